@@ -7,10 +7,13 @@ Correspondence side (this file):
      runtime run them (listing, per-assembly_step trace, final observation via checks/vmcommon.py).
   2. histories - 1..4 runs on ONE runtime instance (harness/h_vmhist.cpp, ocaml/vmhist_driver.ml), with the
      embedder's abort protocol, also with max_runtime and a non-terminating run in the middle.
+  3. deep stacks (deep_case, implementation only, through sqfvm_call and the CLI) - the faulting statement runs under recursive functions
+     and literal nests up to ~2600 frames deep; the reported stack trace and the _exception of every handler are read entry by entry.
 Oracle (the property itself, independent of the mechanism model): every scenario is evaluated by a
 small abstract interpreter over the scenario tree (markers in order, which handler takes over, what runs
 afterwards, whether the run must be reported as failed); model AND implementation are compared with it."""
 import json, os, re, sys
+sys.setrecursionlimit(20000)       # literal nests of a few hundred constructs are printed and evaluated recursively
 sys.path.insert(0, os.path.join(os.path.dirname(os.path.dirname(os.path.abspath(__file__))), "lib"))
 sys.path.insert(0, os.path.dirname(os.path.abspath(__file__)))
 import vcommon as V
@@ -111,6 +114,7 @@ class RunState:
     def __init__(self, prog, sid, scheduled):
         self.prog, self.sid, self.scheduled = prog, sid, scheduled
         self.out, self.live, self.env, self.cost = [], 0, {}, 0
+        self.traces = []            # (probe id, fault node): errors a trace-printing handler (ExceptT, guarded Recurse) took over
 
 
 class Node:
@@ -229,6 +233,27 @@ class Except(Node):
         return self.handler.run(s)
 
 
+class ExceptT(Except):
+    """except__ whose handler also prints _exception itself (second probe [tid, _exception]): the error that is handed over - its
+    messages and the stack trace of the moment it was raised - is judged by the deep-stack family"""
+    def __init__(self, g, body, handler):
+        Except.__init__(self, g, body, handler)
+        self.tid = g.new_id()
+    def ast(self):
+        probe = mark_ast(arr(n_(self.id), un("isNil", ("S", "_exception"))))
+        tprobe = mark_ast(arr(n_(self.tid), ("V", "_exception")))
+        return [st(bi("except__", code(self.body.ast()), code([probe, tprobe] + self.handler.ast())))]
+    def run(self, s):
+        s.live += 1
+        o = self.body.run(s)
+        s.live -= 1
+        if o == NORMAL or o == EXIT: return NORMAL
+        s.out.append("[%d,false]" % self.id)
+        s.out.append("[%d,T]" % self.tid)          # the printed trace is cut out of the observation and judged on its own
+        if o[0] == "E": s.traces.append((self.tid, o[1]))
+        return self.handler.run(s)
+
+
 class Try(Node):
     def __init__(self, g, body, handler): self.id, self.body, self.handler = g.new_id(), body, handler
     def blocks(self): return [self.body, self.handler]
@@ -258,6 +283,60 @@ class Spawn(Node):
     def blocks(self): return [self.body]
     def ast(self): return [st(bi("spawn", arr(), code(self.body.ast())))]
     def run(self, s): s.prog.spawned.append(self.body); return NORMAL
+
+
+REC_STYLES = {"then": 2, "else": 2, "foreach": 3, "count": 3, "direct": 3}     # style -> frames per level (an estimate, only used to aim)
+
+
+class Recurse(Node):
+    """fn = { pre; <if _this > 0: (_this - 1) call fn, else: body>; post }; n call fn - the body runs n calls of a recursive function
+    down (the stack grows with n, the text does not). With guard the function's whole code is the block of an except__ whose
+    handler prints the probes: n + 1 handlers are live when the body runs, the innermost one has to take an error of the body"""
+    def __init__(self, g, n, body, style, local, pre, post, handler=None):
+        self.n, self.body, self.style, self.use_pre, self.use_post, self.handler = n, body, style, pre, post, handler
+        self.fn = ("_fz%d" if local else "fz%d") % g.new_id()
+        self.local = local
+        self.m1, self.m2 = Mark(g), Mark(g)
+        self.id, self.tid = g.new_id(), g.new_id()
+    def blocks(self): return [self.body] + ([self.handler] if self.handler else [])
+    def ast(self):
+        this, fn, k = ("V", "_this"), ("V", self.fn), self.style
+        down = st(bi("call", bi("-", this, n_(1)), fn))
+        b = self.body.ast()
+        pos = un("if", bi(">", this, n_(0)))
+        if k == "then": step = st(bi("then", pos, bi("else", code([down]), code(b))))
+        elif k == "else": step = st(bi("then", un("if", bi("<=", this, n_(0))), bi("else", code(b), code([down]))))
+        elif k == "foreach": step = st(bi("then", pos, bi("else", code([st(bi("forEach", code([st(bi("call", ("V", "_x"), fn))]), arr(bi("-", this, n_(1)))))]), code(b))))
+        elif k == "count": step = st(bi("then", pos, bi("else", code([st(bi("count", code([st(bi("call", ("V", "_x"), fn)), st(("B", True))]), arr(bi("-", this, n_(1)))))]), code(b))))
+        elif k == "direct": step = st(bi("then", pos, bi("else", code([st(un("call", code([down])))]), code(b))))
+        else: raise ValueError(k)
+        inner = (self.m1.ast() if self.use_pre else []) + [step] + (self.m2.ast() if self.use_post else [])
+        if self.handler is not None:
+            probe = mark_ast(arr(n_(self.id), un("isNil", ("S", "_exception"))))
+            tprobe = mark_ast(arr(n_(self.tid), ("V", "_exception")))
+            inner = [st(bi("except__", code(inner), code([probe, tprobe] + self.handler.ast())))]
+        return [("L" if self.local else "=", self.fn, code(inner)), st(bi("call", n_(self.n), fn))]
+    def run(self, s):
+        if self.use_pre:
+            for _ in range(self.n + 1): self.m1.run(s)
+        if self.handler is not None: s.live += 1
+        o = self.body.run(s)
+        if self.handler is not None:
+            s.live -= 1
+            if o != NORMAL:
+                # the handler of the innermost call takes over (once); its call then ends like any other
+                s.out.append("[%d,false]" % self.id)
+                s.out.append("[%d,T]" % self.tid)
+                if o[0] == "E": s.traces.append((self.tid, o[1]))
+                o = self.handler.run(s)
+                if o != NORMAL: return o
+                if self.use_post:
+                    for _ in range(self.n): self.m2.run(s)      # the post marker of the innermost call is inside the block that was left
+                return NORMAL
+        if o != NORMAL: return o
+        if self.use_post:
+            for _ in range(self.n + 1): self.m2.run(s)
+        return NORMAL
 
 
 class Loop(Node):
@@ -429,6 +508,12 @@ def evaluate(prog):
         ids = set()
         collect_ids(body, ids)
         sc = {"markers": s.out, "outcome": "ok", "ids": sorted(ids), "span": None}
+        if s.traces:
+            sc["handled"] = [[tid, list(pr.spans[id(f.stmt)]), getattr(f, "kind", "throw")] for tid, f in s.traces]
+        tids = set()
+        collect_ids(body, tids, ("tid",))
+        if tids:
+            sc["tids"] = sorted(tids)
         if o[0] == "E":
             sc["outcome"] = "err"
             sc["span"] = list(pr.spans[id(o[1].stmt)])
@@ -440,17 +525,18 @@ def evaluate(prog):
     return {"tokens": tok_prog(stmts), "text": text, "scripts": scripts, "loops": prog.loops}
 
 
-def collect_ids(node, ids):
+def collect_ids(node, ids, attrs=("id", "v", "tid")):
     if isinstance(node, Seq):
-        for n in node.nodes: collect_ids(n, ids)
+        for n in node.nodes: collect_ids(n, ids, attrs)
         return
-    for attr in ("id", "v"):
+    for attr in attrs:
         if hasattr(node, attr): ids.add(getattr(node, attr))
-    for attr in ("m1", "m2", "dead"):
-        if hasattr(node, attr): ids.add(getattr(node, attr).id)
+    if "id" in attrs:
+        for attr in ("m1", "m2", "dead"):
+            if hasattr(node, attr): ids.add(getattr(node, attr).id)
     if isinstance(node, Spawn):
         return                      # markers of the spawned body belong to the new script
-    for b in node.blocks(): collect_ids(b, ids)
+    for b in node.blocks(): collect_ids(b, ids, attrs)
 
 
 # ---------------------------------------------------------------- observations and the oracle
@@ -711,6 +797,174 @@ def cli_obs(exe, text):
     return "%s:%s:%s" % (res[0], res[1], ev), locs, rc
 
 
+
+# ---------------------------------------------------------------- deep stacks: the error is raised far down, the trace has to name it all the same
+# "... reported as failed ... together with a stack trace naming the failing statement" / "with the error available in _exception" hold at
+# every depth of the stack. The family puts the scenario (a small block with one faulting statement) under recursive functions
+# (Recurse), literal nests of the wrapping constructs, loops, handlers near / in the middle / far out, optionally in a spawned script,
+# and aims the number of frames at round numbers (powers of two, decimal round numbers) and their neighbours, besides small and
+# arbitrary depths. Implementation only: the runs go through sqfvm_call and the CLI, the expectation comes from the abstract interpreter.
+DEEP_TARGETS = [16, 32, 50, 64, 100, 128, 200, 250, 255, 256, 257, 300, 500, 512, 1000, 1024, 2000, 2048]
+NEST_KINDS = ["call", "ifthen", "ifelse", "foreach", "for", "count", "apply", "isnil", "while", "switch", "with", "and", "or"]
+MAX_LITERAL_NEST = 220
+
+
+def deep_case(gen, rng, target=None):
+    r = rng
+    if target is None:
+        u = r.random()
+        if u < 0.2: target = r.randint(2, 40)
+        elif u < 0.8: target = r.choice(DEEP_TARGETS) + r.randint(-3, 3)
+        else: target = r.randint(41, 2600)
+    scheduled = r.random() < 0.2
+    kinds = [f for f in FAULTS if not (f == "sleep" and scheduled)]
+    fault = Fault(gen, r.choice(kinds))
+    cur = gen.seq(1, "deep.bottom", False, (), 2)
+    cur.nodes.insert(len(cur.nodes) if r.random() < 0.35 else r.randint(0, len(cur.nodes)), fault)
+    plan = [fault.kind]
+    hslot = r.choice(["none", "none", "near", "mid", "far", "every"])
+
+    def layer(node, after=()):
+        nodes = ([Mark(gen)] if r.random() < 0.4 else []) + [node] + ([Mark(gen)] if r.random() < 0.6 else []) + list(after)
+        return Seq(nodes, "deep.layer")
+
+    def handled(body):
+        h = Seq([Mark(gen) for _ in range(r.randint(1, 2))], "except.handler")
+        after = []
+        if r.random() < 0.4:            # a second error after the handler construct, at the depth of the handler: nobody takes that one
+            f2 = Fault(gen, r.choice(kinds))
+            after = [f2] + ([Mark(gen)] if r.random() < 0.5 else [])
+            plan.append("then-" + f2.kind)
+        plan.append("handler")
+        return layer(ExceptT(gen, body, h), after)
+
+    nseg = r.randint(1, 3)
+    # the layers are decided first, then the frames that remain after their fixed cost (an estimate: script, function entry, loop and
+    # handler frames) are shared out among the segments; the jitter of the targets covers what the estimate misses
+    segs = []
+    for i in range(nseg):
+        segs.append({"nest": r.random() < 0.4, "style": r.choice(sorted(REC_STYLES)), "guard": hslot == "every" and i == 0,
+                     "loop": r.choice(["foreach", "for", "count", "apply", "while"]) if r.random() < 0.2 else None,
+                     "handler": (hslot == "near" and i == 0) or (hslot == "mid" and i == 1)})
+    fixed = 3 + sum((0 if g_["nest"] else 1) + (1 if g_["loop"] else 0) + (1 if g_["handler"] else 0) for g_ in segs) + (1 if hslot == "far" else 0)
+    room = max(nseg, target - fixed)
+    cuts = sorted(r.randint(0, room) for _ in range(nseg - 1))
+    shares = [b - a for a, b in zip([0] + cuts, cuts + [room])]
+    nest_left = MAX_LITERAL_NEST
+    for g_, share in zip(segs, shares):
+        if g_["handler"]:
+            cur = handled(cur)
+        if g_["nest"] and share <= nest_left:
+            palette = r.choice([[r.choice(NEST_KINDS)], NEST_KINDS, ["call", "ifthen"]])
+            for _ in range(share):
+                cur = Seq([Wrap(gen, r.choice(palette), cur, 1)] + ([Mark(gen)] if r.random() < 0.05 else []), "deep.nest")
+            nest_left -= share
+            plan.append("nest%d" % share)
+        else:
+            per = REC_STYLES[g_["style"]] + (1 if g_["guard"] else 0)
+            n = max(1, (share + r.randint(0, per - 1)) // per)
+            h = Seq([Mark(gen)], "except.handler") if g_["guard"] else None
+            cur = layer(Recurse(gen, n, cur, g_["style"], r.random() < 0.5, r.random() < 0.3, r.random() < 0.4, h))
+            plan.append("rec-%s%s%d" % (g_["style"], "-guarded" if g_["guard"] else "", n))
+        if g_["loop"]:
+            cur = layer(Wrap(gen, g_["loop"], cur, r.randint(1, 3)))
+            plan.append("loop-" + g_["loop"])
+    if hslot == "far" or (hslot == "mid" and nseg == 1):
+        cur = handled(cur)
+    if scheduled:
+        cur = Seq([Mark(gen), Spawn(cur), Mark(gen)], "main")
+        plan.append("spawned")
+    cur.role = "main" if not scheduled else cur.role
+    ev = evaluate(Program(cur))
+    ev["kind"], ev["faults"] = "deep-stack", [" ".join(plan)]
+    ev["aim"] = target
+    return ev
+
+
+TRACE_ENTRY = re.compile(r"<\s*(\d+) of (\d+)> \[L(\d+)\|C(\d+)\|[^\]\n]*\]")
+
+
+def cut_traces(ev, msgs):
+    """the messages of one run -> (messages in which every printed _exception [tid,<trace>] is abbreviated to [tid,T],
+    [(tid, printed text, text of the last error-level diagnostic before it)], text of the fatal stack-trace diagnostic or None)"""
+    tids = set(t for sc in ev["scripts"] for t in sc.get("tids", []))
+    out, traces, fatal, lasterr = [], [], None, None
+    for sev, text in msgs:
+        m = re.search(r"\[DIAG_LOG\] \[(\d+),(.*)\]\s*$", text, re.S) if sev == 3 else None
+        if m and int(m.group(1)) in tids:
+            traces.append((int(m.group(1)), m.group(2), lasterr))
+            text = text[:m.start()] + "[DIAG_LOG] [%s,T]" % m.group(1)
+        elif sev == 0 and "Stacktrace:" in text:
+            fatal = text
+        elif sev == 1:
+            lasterr = text
+        out.append([sev, text])
+    return out, traces, fatal
+
+
+def trace_complaints(what, printed, span, textlen):
+    """a printed stack trace against the statement that raised the error (span = its columns in the one-line program text)"""
+    es = [tuple(int(x) for x in e) for e in TRACE_ENTRY.findall(printed)]
+    if not es:
+        return ["%s lists no frame at all" % what], 0
+    bad, n = [], es[0][1]
+    if [e[0] for e in es] != list(range(1, len(es) + 1)) or any(e[1] != n for e in es) or len(es) != n:
+        bad.append("%s numbers its entries inconsistently (%d entries, first says 'of %d')" % (what, len(es), n))
+    if any(e[2] != 1 or e[3] >= textlen for e in es):
+        bad.append("%s has an entry that points outside the program text" % what)
+    a, b = span
+    if not (es[0][2] == 1 and a <= es[0][3] < b):
+        bad.append("%s does not name the failing statement: its innermost entry <1 of %d> is at column %d, the statement that raised the error "
+                   "spans columns [%d,%d); %d of the %d entries lie inside that statement" % (what, n, es[0][3], a, b, sum(1 for e in es if a <= e[3] < b), len(es)))
+    return bad, len(es)
+
+
+def deep_oracle(ev, rc, status, msgs, depths):
+    """the whole property on one deep run: the run-level oracle (markers, take-over, failed / not failed, trace last) and the traces"""
+    msgs2, traces, fatal = cut_traces(ev, msgs)
+    obs, locs = api_obs(rc, status, msgs2)
+    bad = oracle(ev, obs, locs or None)
+    L = len(ev["text"])
+    want = [hd for sc in ev["scripts"] for hd in sc.get("handled", [])]
+    if len(traces) != len(want) and not bad:
+        bad.append("%d handlers printed _exception, %d errors are handed to such a handler" % (len(traces), len(want)))
+    for (tid, printed, lasterr), (wtid, span, kind) in zip(traces, want):
+        what = "_exception in the handler (probe %d) of the error of the '%s' statement" % (tid, kind)
+        if tid != wtid:
+            bad.append("handler probe %d printed _exception where probe %d is due" % (tid, wtid))
+            continue
+        if lasterr is None or (lasterr not in printed and lasterr not in printed.replace('""', '"')):
+            bad.append("%s does not hold the error that was raised (%s)" % (what, repr(lasterr)[:120]))
+        c, n = trace_complaints("the stack trace of " + what, printed, span, L)
+        depths.append(n)
+        bad += c
+    failing = [sc for sc in ev["scripts"] if sc["outcome"] == "err"]
+    if failing and fatal is not None:
+        cs = [trace_complaints("the stack trace reported with the failed run", fatal, sc["span"], L) for sc in failing]
+        depths.append(cs[0][1])
+        if all(c for c, n in cs):
+            bad += cs[0][0]
+    return bad, obs
+
+
+def cli_msgs(exe, text):
+    """the sqfvm binary on one program -> (sqfvm_call-like result, status, [[severity, message text incl. continuation lines]], exit code)"""
+    rc, out = V.sh([exe, "-a", "-V", "--no-execute-print", "--suppress-welcome", "--no-spawn-player", "--no-load-executable-dir",
+                    "--sqf", text], timeout=120, cwd="/tmp")
+    failed, done = "Runtime Error occured." in out, "Ran to completion." in out
+    msgs = []
+    for line in out.split("\n"):
+        m = re.match(r"^\[(INF|WRN|ERR|FAT)\] (.*)$", line)
+        if m:
+            msgs.append([{"FAT": 0, "ERR": 1, "WRN": 2, "INF": 3}[m.group(1)], m.group(2)])
+        elif msgs and line not in ("Runtime Error occured.", "Ran to completion."):
+            msgs[-1][1] += "\n" + line
+    for m in msgs:
+        m[1] = m[1].rstrip("\n") if m[0] != 0 else m[1]
+    res = (-6, 0) if failed and not done else (0, 0) if done and not failed else (9, 9)
+    return res[0], res[1], msgs, rc
+
+
 def main(replay=None):
     run = V.Run(PID, "proof")
     rng = run.rng
@@ -725,7 +979,7 @@ def main(replay=None):
     replay_embedder = None
     if replay:
         r = json.load(open(replay))["replay"]
-        if r.get("origin") in ("sqfvm_call", "eval", "cli"):
+        if r.get("origin") in ("sqfvm_call", "eval", "cli", "deep-call", "deep-cli"):
             replay_embedder = (r["origin"], r["case"])
         else:
             hists.append({"cfg": tuple(r["case"]["cfg"]), "runs": [(m, ev) for m, ev in r["case"]["runs"]], "origin": "replay"})
@@ -877,7 +1131,7 @@ def main(replay=None):
         evs = [ev for m, ev in case["runs"]]
         if o == "sqfvm_call": api_h.append((case["cfg"][0] / 1000.0, evs))
         elif o == "eval": eval_cases += evs
-        else: cli_cases += evs
+        elif o == "cli": cli_cases += evs
     if not replay:
         for i in range(400 if thorough else 60):
             n = rng.randint(1, 4)
@@ -963,6 +1217,50 @@ def main(replay=None):
                      {"complaints": bad, "impl": obs, "text": ev["text"], "exit_code": rc})
     evaluations += n_api + n_cli
 
+    # ---- deep stacks (deep_case): the stack trace of the failed run and the _exception of every handler name the failing statement at
+    # every depth; through sqfvm_call (each case on an instance of its own) and through the CLI
+    deep_api, deep_cli = [], []
+    if replay_embedder and replay_embedder[0] in ("deep-call", "deep-cli"):
+        (deep_api if replay_embedder[0] == "deep-call" else deep_cli).extend(ev for m, ev in replay_embedder[1]["runs"])
+    if not replay:
+        for i in range(3000 if thorough else 400):
+            deep_api.append(deep_case(gen, rng))
+        for i in range(120 if thorough else 16):
+            deep_cli.append(deep_case(gen, rng))
+    deep_bad = []
+    deep_depths, deep_shapes, deep_exp = [], {}, {"runs_that_must_fail": 0, "runs_that_must_not_fail": 0, "handler_take_overs_with_trace": 0}
+    if deep_api or deep_cli:
+        bdir = V.build_impl("plain")
+        outs = worker_results(os.path.join(bdir, "libsqfvm.so"), [{"max_s": 0.0, "codes": [ev["text"]]} for ev in deep_api])
+        results = []
+        for ev, o in zip(deep_api, outs):
+            results.append(("deep-call", ev, o if isinstance(o, tuple) else tuple(o["runs"][0]) + (None,)))
+        exe = os.path.join(bdir, "sqfvm")
+        for ev in deep_cli:
+            results.append(("deep-cli", ev, cli_msgs(exe, ev["text"])))
+        for origin, ev, res in results:
+            h = {"cfg": (0, -1, 10000), "runs": [("a", ev)], "origin": origin}
+            dist[origin] = dist.get(origin, 0) + 1
+            evaluations += 1
+            for w in ev["faults"][0].split(" "):
+                w = re.sub(r"\d+", "", w)
+                deep_shapes[w] = deep_shapes.get(w, 0) + 1
+            fails = any(sc["outcome"] == "err" for sc in ev["scripts"])
+            deep_exp["runs_that_must_fail" if fails else "runs_that_must_not_fail"] += 1
+            deep_exp["handler_take_overs_with_trace"] += sum(len(sc.get("handled", [])) for sc in ev["scripts"])
+            if res[0] == "CRASH":
+                viol("libsqfvm.so did not survive this program with a deep stack (worker exit %s)" % res[1], h, {"text": ev["text"], "stderr": res[2]})
+                continue
+            rc_, status_, msgs_, exit_code = res
+            bad, obs = deep_oracle(ev, rc_, status_, msgs_, deep_depths)
+            if bad:
+                deep_bad.append((len(ev["text"]), len(deep_bad), origin, ev, h, bad, obs, exit_code, msgs_))
+        # every violating run counts; the 20 shortest programs are written out as replays (a change of the trace shows in hundreds of runs)
+        for _, _, origin, ev, h, bad, obs, exit_code, msgs_ in sorted(deep_bad, key=lambda x: x[:2])[:20]:
+            viol("%s, stack aimed at %s frames (%s): %s" % ("sqfvm_call" if origin == "deep-call" else "sqfvm CLI", ev.get("aim", "?"), ev["faults"][0], bad[0]), h,
+                 {"complaints": bad, "impl": obs[:2000], "text": ev["text"], "aim": ev.get("aim"), "exit_code": exit_code,
+                  "fatal_trace_head": next((t[:600] for sv, t in msgs_ if sv == 0 and "Stacktrace:" in t), None)})
+
     # ---- "error state raised by one statement does not surface at a later one", through _exception: an expression evaluated while text is
     # preprocessed at run time fails (error + stack trace reported, the script goes on); later an error is caught by a handler. What the
     # handler finds in _exception is what it finds when the earlier expression had succeeded (implementation only, two runs compared).
@@ -1028,6 +1326,26 @@ def main(replay=None):
     run.cov["sqfvm_call_runs"] = n_api
     run.cov["cli_runs"] = n_cli
     run.cov["eval_expressions"] = dist.get("eval", 0)
+    bounds = {}
+    for d in deep_depths:
+        if any(abs(d - t) <= 2 for t in DEEP_TARGETS): bounds[str(d)] = bounds.get(str(d), 0) + 1
+    run.cov["deep_stack"] = {
+        "rule": ("one faulting statement (12-13 fault shapes) at a random position of a small scenario block that runs under 1-3 segments of "
+                 "recursive functions (5 styles of the recursive step, local or global function variable, markers before / after the step, "
+                 "optionally every call guarded by its own except__) and literal nests of the 13 wrapping constructs (up to %d levels), with loops "
+                 "between the segments, a trace-printing except__ handler near the fault / between the segments / outermost / none, sometimes a second "
+                 "fault after the handler construct, 20%% in a spawned script; frames aimed at %s +-3 (60%%), 2..40 (20%%), 41..2600 (20%%); judged "
+                 "by the abstract interpreter (markers, take-over once by the nearest handler, failed / not failed, stack trace last) and: the innermost "
+                 "entry of the reported stack trace and of every handler's _exception lies inside the statement that raised the error, entries are "
+                 "numbered 1..N of N, _exception holds the text of the error diagnostic; implementation only (sqfvm_call, CLI)" % (MAX_LITERAL_NEST, DEEP_TARGETS)),
+        "runs": len(deep_api) + len(deep_cli), "through_sqfvm_call": len(deep_api), "through_cli": len(deep_cli),
+        "expected": deep_exp, "shapes": dict(sorted(deep_shapes.items())), "runs_violating": len(deep_bad),
+        "traces_judged": len(deep_depths),
+        "observed_trace_depths": {"min": min(deep_depths) if deep_depths else None, "max": max(deep_depths) if deep_depths else None,
+                                  "distinct": len(set(deep_depths)),
+                                  "le_64": sum(1 for d in deep_depths if d <= 64), "65_256": sum(1 for d in deep_depths if 64 < d <= 256),
+                                  "257_1024": sum(1 for d in deep_depths if 256 < d <= 1024), "gt_1024": sum(1 for d in deep_depths if d > 1024),
+                                  "within_2_of_a_round_number": dict(sorted(bounds.items(), key=lambda x: int(x[0])))}}
     run.cov["cli_process_exit_codes_recorded_not_demanded"] = cli_exit_codes
     run.cov["model_outside_fragment"] = unsupported
     run.cov["trusted_base"] = ["Coq 8.16.1 kernel (vm_compute used in Examples only)", "ExtrOcamlBasic extraction + ocaml/vmhist_driver.ml, ocaml/vm_driver.ml",
